@@ -20,7 +20,9 @@ func init() { register(&Monitor{ID: "C06", Run: runC06, Self: selfC06}) }
 
 var c06Keys = []string{"", "a", "b", "c", ".", "#", "a.b", "a#1", "k\"q", "é", "key with space", string(rune(0x1f600)), "\x00", "A", ".a", ".b", ".a.b", "a#0", "b.a", "a.a", ".a#0", "#0",
 	// keys that collide under common digests (both of a pair are in the pool, so they meet in one object)
-	"Aa", "BB", "liquid", "costarring", "aca", "bab", "ab", "ba", "a\x00", "a "}
+	"Aa", "BB", "liquid", "costarring", "aca", "bab", "ab", "ba", "a\x00", "a ",
+	// a Go string is any byte sequence: keys that are not valid UTF-8
+	"\xff", "\xfe\xff", "a\xc3", "\xed\xa0\x80", "\x80"}
 
 func c06Key(r *rng.R) string {
 	if r.Chance(1, 12) {
@@ -220,6 +222,55 @@ func (p *prog) adoptResultRef(res *model.Node, real at.Object, expect map[string
 	}
 }
 
+// c06GrowShrink: the object grows to 9..40 fields (scalars and containers, in several Set calls) and is then unset
+// down to a few of them, in chunks of different sizes; whatever the object does with its storage on the way, the
+// surviving fields hold what they held (containers by identity).
+func c06GrowShrink(p *prog, o *model.Node) {
+	r, h := p.r, p.h
+	real := o.Object()
+	n := []int{9, 10, 16, 17, 24, 33, 40}[r.Intn(7)]
+	p.c.Count("object_grow_and_shrink")
+	var added []string
+	for len(added) < n && !p.failed {
+		k := r.Range(1, 4)
+		keys := make([]string, 0, k)
+		vals := make([]model.Val, 0, k)
+		args := make([]any, 0, 2*k)
+		for j := 0; j < k && len(added)+len(keys) < n; j++ {
+			key := fmt.Sprintf("g%03d", len(added)+len(keys))
+			v := p.anyVal(o, 3)
+			keys, vals, args = append(keys, key), append(vals, v), append(args, key, h.Arg(v))
+		}
+		p.step("Set", fmt.Sprintf("%s.Set(%s) [growing]", o.Name(), showPairs(keys, vals)), false, func() {
+			for i := range keys {
+				o.M[keys[i]] = vals[i]
+			}
+			real.Set(args...)
+		})
+		added = append(added, keys...)
+	}
+	keep := r.Range(1, 3)
+	perm := r.Perm(len(added))
+	victims := make([]string, 0, len(added))
+	for _, i := range perm[:len(added)-keep] {
+		victims = append(victims, added[i])
+	}
+	for len(victims) > 0 && !p.failed {
+		k := []int{1, 1, 2, 3, 5, len(victims)}[r.Intn(6)]
+		if k > len(victims) {
+			k = len(victims)
+		}
+		chunk := victims[:k]
+		victims = victims[k:]
+		p.step("Unset", fmt.Sprintf("%s.Unset(%q) [shrinking, %d fields before]", o.Name(), chunk, len(o.M)), false, func() {
+			for _, key := range chunk {
+				delete(o.M, key)
+			}
+			real.Unset(chunk...)
+		})
+	}
+}
+
 func c06Program(p *prog, steps int) {
 	r, h := p.r, p.h
 	for i := r.Range(2, 4); i > 0 && !p.failed; i-- {
@@ -235,6 +286,10 @@ func c06Program(p *prog, steps int) {
 		os := p.objects()
 		o := os[r.Intn(len(os))]
 		real := o.Object()
+		if r.Chance(1, 25) {
+			c06GrowShrink(p, o)
+			continue
+		}
 		existing := o.SortedKeys()
 		pickKey := func() string {
 			if len(existing) > 0 && r.Chance(1, 8) {
